@@ -72,23 +72,26 @@ NA_REASON = "rule designed (DESIGN.md §4), checker for it not built yet; not cl
 
 # Additions of the second/third adversarial rounds (DESIGN.md §10): appended to the claimed text / technique.
 ADD_TEXT = {
- "C01": " Also decided: the rdf:langString reader and streams.Serialize record every entry of the map they range over; no constant vocabulary flows into @context; the @context object is read in the orientation it is written and aliased members are written under the spelling they are read under; the duration reader applies the sign on every success return and the anyURI reader rejects only non-strings, unparsable strings and strings without a scheme.",
- "C02": " Also decided: every way round the loops of resolveActors and of the stored-inbox lookup passes through the dereference / InboxForActor (no recipient is skipped untried), and no slice on the delivery path is written through while it is ranged over.",
- "C03": " Also decided: nothing returns from either strip function before bto, bcc and object were examined, and the type tests guarding them admit every vocabulary type that has the member.",
- "C05": " Also decided: attribution is decided per object (the set consulted is selected by the index of the object appended to), and no method of the actor types writes a field of its receiver (nothing is remembered across requests).",
+ "C01": " Also decided: the rdf:langString reader and streams.Serialize record every entry of the map they range over; no constant vocabulary flows into @context; the @context object is read in the orientation it is written and aliased members are written under the spelling they are read under; the duration reader applies the sign on every success return and the anyURI reader rejects only non-strings, unparsable strings and strings without a scheme. The store of @context dominates every success return of Serialize; a type claims a member in the spelling (alias prefix included) under which its property reads it; toAliasMap registers both the http and https spelling of a vocabulary.",
+ "C02": " Also decided: every way round the loops of resolveActors and of the stored-inbox lookup passes through the dereference / InboxForActor (no recipient is skipped untried), and no slice on the delivery path is written through while it is ranged over. dedupeIRIs never returns its input; the remote resolution in prepare dominates every success return; between a JSON string and an IRI-valued member stands only the anyURI reader's own test.",
+ "C03": " Also decided: nothing returns from either strip function before bto, bcc and object were examined, and the type tests guarding them admit every vocabulary type that has the member. Every type that has bto / bcc claims those members, so the raw member does not survive the strip among the unknown members.",
+ "C05": " Also decided: attribution is decided per object (the set consulted is selected by the index of the object appended to), and no method of the actor types writes a field of its receiver (nothing is remembered across requests). The wrap decision rests on IsOrExtendsActivity, whose denotation equals Activity and its descendants in the ontology.",
  "C06": " Also decided: GetId yields href only where the id property is nil; every refusal of the verification steps is feasible (no dead check).",
  "C07": " Also decided: the protocol flags each constructor sets are the ones its name promises (followed through delegating constructors).",
  "C08": " Also decided: a request releases only locks it holds, and request handlers keep no state in their receiver.",
- "C10": " Also decided: the delegate receives the inbox activity only where its id property is non-nil and holds an IRI; every other outcome of that test is answered 400.",
- "C11": " Also decided: every way round an in-place filter loop removes an element or advances the index; the reviewed reason for the duration regexp's submatch indices is re-verified by parsing the pattern.",
- "C12": " Also decided (shared with C01): the duration reader's sign step and the anyURI reader's rejection conditions.",
+ "C10": " Also decided: the delegate receives the inbox activity only where its id property is non-nil and holds an IRI; every other outcome of that test is answered 400. ErrObjectRequired / ErrTargetRequired reach the entry points unchanged (no re-wrapping on the path, comparison against the same sentinel); JSONResolver.Resolve and ToType return a nil error only after a callback has run, so an unknown or typeless body cannot be taken for handled.",
+ "C11": " Also decided: every way round an in-place filter loop removes an element or advances the index; the reviewed reason for the duration regexp's submatch indices is re-verified by parsing the pattern. Every decoder of a non-functional property links each element to its container and numbers it (Next/Prev on a decoded iterator cannot dereference a nil parent).",
+ "C12": " Also decided (shared with C01): the duration reader's sign step and the anyURI reader's rejection conditions. every decoder of a non-functional property numbers its elements 0..n-1 in document order; the only admission test for an IRI-valued member is the anyURI reader's.",
  "C13": " When a predicate body is not of a listed statement form its denotation is read off the SSA form with the branch facts (set of constants whose comparison with the type name is known true at a `return true`; no other condition may decide the result).",
- "C14": " Also decided: Apply reaches the delegate only where the predicate returned (true, nil); the constructors store their arguments unchanged. When a resolver body is not of the listed statement forms the dispatch relation and the sentinel discipline are read off the SSA form with the branch facts.",
- "C16": " Also decided: the keys an Update deletes are keys of the idx'th raw value of the activity's object whose value is null, the raw map being the decoded request body handed on unchanged; the Tombstone is built only from the stored value.",
- "C17": " Also decided: 'nothing owned' is answered only at the depth limit or after every value was fetched and searched; no mutator is reachable from InboxForwarding.",
+ "C14": " Also decided: Apply reaches the delegate only where the predicate returned (true, nil); the constructors store their arguments unchanged. When a resolver body is not of the listed statement forms the dispatch relation and the sentinel discipline are read off the SSA form with the branch facts. The @context key tested is exactly the ontology's vocabulary URI; both the http and https spelling are registered.",
+ "C16": " Also decided: the keys an Update deletes are keys of the idx'th raw value of the activity's object whose value is null, the raw map being the decoded request body handed on unchanged; the Tombstone is built only from the stored value. The sentinel errors of the wrapped callbacks reach PostOutboxScheme unchanged.",
+ "C17": " Also decided: 'nothing owned' is answered only at the depth limit or after every value was fetched and searched; no mutator is reachable from InboxForwarding. values embedded in inReplyTo / object / target / tag are searched with their ids.",
  "C18": " Also decided: whole-element overwrites through the element pointer are tracked; helper methods are interpreted at their call sites.",
  "C19": " Also decided: the failure drain stops only when the channel is known empty.",
  "C20": " Also decided: each of the three headers is set on every path; the recursive scrub's guards admit every vocabulary type.",
+ "C04": " Also decided: every refusal of the verification of the stored Follow is feasible (no dead step); on the delivery path of the automatic Accept the remote resolution of recipients is unconditional.",
+ "C09": " Also decided: no function on a path between Lock and Unlock writes through the *url.URL used as the key.",
+ "C15": " Also decided: no variable carries state from one lap of an emission loop to the next unreset; allExtendsAreIn answers 'all parents converted' only after all parents were looked at; the closure loops of convert are total.",
 }
 ADD_TECH = {
  "C01": " + SSA lap analysis of range loops + value-flow provenance of @context + reader/writer orientation agreement",
